@@ -618,7 +618,8 @@ def _run_address_map(wrong, with_memory=False):
         key = mangle(name.t, memid)
         # GHOST: which keys address_map has already handed out, and to which client (module name, memory id; 0 = the module's CSR bank)
         handed = z3.Array("ghost.handed", I, z3.BoolSort()); cl_name = z3.Array("ghost.client.name", I, I); cl_mem = z3.Array("ghost.client.memory", I, I)
-        ctx.assume(z3.ForAll([k], z3.Implies(z3.Select(handed, k), z3.And(z3.Select(old.pres, k), k == mangle(z3.Select(cl_name, k), z3.Select(cl_mem, k))))))
+        # ghost invariant `a handed key is present and is the mangled name of the client it was handed to`, instantiated at the one key this call touches
+        ctx.assume(z3.Implies(z3.Select(handed, key), z3.And(z3.Select(old.pres, key), key == mangle(z3.Select(cl_name, key), z3.Select(cl_mem, key)))))
         try:
             got = S.SoCCSRHandler.address_map(hnd, name, Mem if with_memory else None)
         except S.SoCError:
